@@ -641,6 +641,16 @@ var readOps = []readOp{
 		}
 		return fpMat(m.Slice(a.i0, a.rows, 0, a.j0+1), a.t.IsInt)
 	}},
+	// the read-only accessors of the ConstMatrix interface have their own implementations in the generated
+	// types (ConstSlice builds its header separately from Slice): same judgement, a second slice of the result on top
+	{"ConstSlice-of-view", func(m ad.Matrix, a *aux) string {
+		if a.rows == 0 || a.cols == 0 {
+			return ""
+		}
+		c := m.ConstSlice(a.i0, a.rows, 0, a.j0+1)
+		r, k := c.Dims()
+		return fpMat(c, a.t.IsInt) + fpMat(c.ConstSlice(0, r, k-1, k), a.t.IsInt)
+	}},
 }
 
 type writeOp struct {
